@@ -53,7 +53,7 @@ def has_deep_lookup(fns):
 
 def run(ctx):
     global SPEC_SLOT, SPEC_SLOT2
-    feat = {"unknown": 0.05, "assert": 0.0, "wrong_kind": 0.05}
+    feat = {"unknown": 0.05, "assert": 0.0, "wrong_kind": 0.05, "devfn_param": 0.2, "alias_subs": 0.3}
     g = L.MoveGen(ctx.rng, feat)
     n_prog = 500 if ctx.tier == "thorough" else 60
     sp_list = specs()
